@@ -341,7 +341,7 @@ func parseOnce[U Uint](p *%(struct)s[U], entry string, o *RObs) {
 			o.Err = fmt.Sprint(r)
 		}
 	}()
-	p.Trace, p.STrace = "", ""
+%(traceinit)s
 	err := p.Parse(ruleIndex(entry))
 	if err == nil {
 		o.V = "ok"
@@ -352,7 +352,7 @@ func parseOnce[U Uint](p *%(struct)s[U], entry string, o *RObs) {
 		o.Max = []any{rul3s[pe.maxToken.pegRule], uint64(pe.maxToken.begin), uint64(pe.maxToken.end)}
 		o.Err = pe.Error()
 	}
-	o.Trace, o.STrace = p.Trace, p.STrace
+%(tracecopy)s
 }
 
 func runCase[U Uint](c *RCase) *RObs {
@@ -476,22 +476,29 @@ class RunModule:
     def __init__(self):
         self.dir = scratch('pegrun-')
         with open(os.path.join(self.dir, 'go.mod'), 'w') as fh:
-            fh.write('module run\n\ngo 1.25\n')
+            fh.write('module run\n\ngo 1.25\n\nrequire github.com/pointlander/peg v0.0.0\n\nreplace github.com/pointlander/peg => %s\n' % REPO)
         self.pkgs = {}
 
-    def add(self, pkg, gosrc, ast, struct='P'):
+    def add(self, pkg, gosrc, ast, struct='P', probes=True, support=(), execute=True):
         d = os.path.join(self.dir, pkg)
         os.makedirs(d, exist_ok=True)
+        for f in support:
+            shutil.copy(f, d)
         m = re.search(r'^package (\w+)', gosrc, re.M)
         gopkg = m.group(1) if m else 'g'
+        if gopkg == 'main':      # a program cannot be imported by the runner
+            gopkg = 'mainpkg'
+            gosrc = re.sub(r'^package main\b', 'package mainpkg', gosrc, count=1, flags=re.M)
         with open(os.path.join(d, 'p.go'), 'w') as fh:
             fh.write(gosrc)
         has_exec = re.search(r'^func \(p \*%s\[_\]\) Execute\(\)' % struct, gosrc, re.M) is not None
         okpart = ''
         if ast:
-            okpart = RUN_OK_AST % {'execute': '\t\tp.Execute()' if has_exec else ''}
+            okpart = RUN_OK_AST % {'execute': '\t\tp.Execute()' if (has_exec and execute) else ''}
         src = RUN_GO % {'pkg': gopkg, 'struct': struct, 'astwalk': RUN_AST_WALK if ast else '',
-                        'okpart': okpart, 'optpart': RUN_OPT_AST if ast else '\t_ = opts\n'}
+                        'okpart': okpart, 'optpart': RUN_OPT_AST if ast else '\t_ = opts\n',
+                        'traceinit': '\tp.Trace, p.STrace = "", ""' if probes else '',
+                        'tracecopy': '\to.Trace, o.STrace = p.Trace, p.STrace' if probes else ''}
         with open(os.path.join(d, 'run.go'), 'w') as fh:
             fh.write(src)
         self.pkgs[pkg] = {'ast': ast}
